@@ -537,7 +537,7 @@ let model_case (toks : string list) : string =
   | "pair" :: rest ->
     let (_, a, opsa, b, opsb) = parse_pair rest in
     let o = ApiHist.api_pair a opsa b opsb in
-    Printf.sprintf "eq=%s eqr=%s %s %s" (b01 o.ApiHist.po_eq) (b01 o.ApiHist.po_eqr)
+    Printf.sprintf "eq0=%s eq=%s eqr=%s %s %s" (b01 o.ApiHist.po_eq0) (b01 o.ApiHist.po_eq) (b01 o.ApiHist.po_eqr)
       (answers_kv "A" o.ApiHist.po_a) (answers_kv "B" o.ApiHist.po_b)
   | k :: _ -> failwith ("unknown case kind " ^ k)
   | [] -> failwith "empty case"
@@ -600,7 +600,7 @@ let check_case (prop : string) (toks : string list) (kvs : (string * string) lis
   | "pair" :: rest ->
     let (relaxed, a, opsa, b, opsb) = parse_pair rest in
     if has_panic kvs then panic_verdict [a; b] else
-    let o = { ApiHist.po_eq = (get kvs "eq" = "1"); po_eqr = (get kvs "eqr" = "1");
+    let o = { ApiHist.po_eq0 = (get kvs "eq0" = "1"); po_eq = (get kvs "eq" = "1"); po_eqr = (get kvs "eqr" = "1");
               po_a = parse_answers kvs "A" final_ops; po_b = parse_answers kvs "B" final_ops } in
     verdict (ApiCheck.api_check_pair (prop_num prop) a opsa b opsb relaxed o)
   | "sched" :: "R" :: rest ->
